@@ -40,7 +40,7 @@ CLAIMED = {
         technique="contracts on the real functions; symbolic execution + ghost differentiation; z3 nlsat with hypothesis slicing"),
     'C12': dict(
         level='proof', ref='DESIGN.md 3/C12',
-        text="get_permeance is executed symbolically on an experiment list of arbitrary symbolic length (element i = (T_i, P_i, Ea_i)) for stated/unstated activation "
+        text="get_penetrant_data for experiment lists of arbitrary length (which list is filtered, with which predicate on a generic element; builtin filter() by contract). get_permeance is executed symbolically on an experiment list of arbitrary symbolic length (element i = (T_i, P_i, Ea_i)) for stated/unstated activation "
              "energies x 3 experiment units: measured value at an experiment's temperature, Arrhenius factor of the nearest experiment elsewhere, result always in kg units; "
              "calculate_activation_energy passes abscissa 1/T_i, ordinate ln P_i and the [x,1] design to lstsq and returns -slope*R; lemmas: data on an Arrhenius line "
              "recover Ea and give the same permeance whichever experiment is nearest; molar selectivity = weight selectivity*M2/M1; pure-component flux branch-wise.",
@@ -53,7 +53,7 @@ CLAIMED = {
              "calculate_partial_fluxes is cut at its head: initiation, preservation (next iterate = composition of the law's fluxes at the current iterate, "
              "d = |change|), exit (returned fluxes = law at the final iterate, d < precision) for 3 modes x given/default permeances x both models; the exact "
              "identities (vacuum, p=0, pressure identity), self-consistency under local non-expansiveness and the k-scaling (lock-step relational proof over the loop) are lemmas.",
-        note=TB + "get_partial_pressures / Membrane.get_permeance by contract (pure functions); contraction is a hypothesis of the statement; termination is C10",
+        note=TB + "frame lemma (no explored path writes to arguments, self, per-instance caches or module state) proved next to the statement, since it relates several calls; get_partial_pressures / Membrane.get_permeance by contract (pure functions); contraction is a hypothesis of the statement; termination is C10",
         technique="contracts + loop invariant at a cut point + lock-step self-composition; VCs from the AST; z3"),
     'C10': dict(
         level='proof', ref='DESIGN.md 3/C10',
@@ -75,8 +75,9 @@ CLAIMED = {
         text="From the recurrence of each process function (generic step k): evaporation heat = sum of permeated mass x each component's own latent heat per kg at T_k "
              "(real get_vaporisation_heat executed), self-cooling step, programme evaluated at (k+1)*dt, isothermal constancy, condensation heat reported iff a permeate "
              "temperature is given and equal to the component-symmetric formula; step-0 lemma: isothermal and non-isothermal models give identical fluxes and heats "
-             "(terms compared after substituting k=0 and the prefix values); TemperatureProgram.program against its three closed forms.",
-        note=TB + "callees by contract as in C01; programme closed forms proved for coefficient lists up to length 4 (quick) / 6 (thorough) - bounded part; "
+             "(terms compared after substituting k=0 and the prefix values); TemperatureProgram.program against its three closed forms for coefficient lists of ARBITRARY length (the list that is summed has one monomial per coefficient, its generic summand j "
+             "is c[j] t^j resp. c[j+1] t^j, the result wraps that sum as the type says; builtin sum() by contract).",
+        note=TB + "callees by contract as in C01; programme closed forms additionally unrolled for coefficient lists up to length 4 (quick) / 6 (thorough) as a cross-check; "
                   "three defects of the isothermal models were repaired (fix commits 049e8e4, b53bf42, 77ae1e5)",
         technique="contracts + loop recurrence from the real body + lemmas over the step spec; ring normal form / z3"),
     'C18': dict(
@@ -84,14 +85,15 @@ CLAIMED = {
         text="Admissibility invariant of the four process recurrences: a normal return means every iteration k<N completed, so the path condition of the generic iteration "
              "holds for every reported step; from it: feed mass > 0 (head guard, or base + tail guard), feed temperature > 0, feed and permeate mass fractions in [0,1] "
              "(constructor validation), for all configurations. On the original tree the mass/temperature obligations are refuted and replayed natively (m=[1,-21,-58,...]).",
-        note=TB + "finiteness (NaN/inf) outside the real-number model; initial temperature of isothermal models admissible by the quantifier; repaired by fix commit 44243de",
+        note=TB + "finiteness (NaN/inf, overflow) is outside the real-number model: a labelled bounded native scan (coarse two-step runs landing where the Antoine/Arrhenius exponentials overflow, all modes) "
+                  "stands in for it and is not counted as proved; initial temperature of isothermal models admissible by the quantifier; repaired by fix commits 44243de and 0561059",
         technique="inductive invariant over the loop recurrence extracted from the real body; z3; native replay with coarse steps"),
     'C11': dict(
         level='proof', ref='DESIGN.md 3/C11',
         text="Relational (two-run) lemmas proved on the recurrence extracted from each process function: with (area, feed amount) x c and the coupling m'_k = c m_k, every "
              "intensive quantity of step k+1 is unchanged and masses/heats scale by c, and the scaled run satisfies the same path condition; with area x k and step / k "
              "(no programme) every per-step state is unchanged; the step-0 flux term does not mention area, feed amount or step length.",
-        note=TB + "coupling at step k is the induction hypothesis, prefix values the base case (induction principle trusted)",
+        note=TB + "frame lemma (no explored path writes to arguments, self, per-instance caches or module state) proved next to the statement, since it relates several calls; coupling at step k is the induction hypothesis, prefix values the base case (induction principle trusted)",
         technique="substitution instances of the extracted recurrence (self-composition) discharged by ring normal form / z3"),
     'C05': dict(
         level='proof', ref='DESIGN.md 3/C05',
@@ -99,7 +101,7 @@ CLAIMED = {
              "provenance of the returned functions (find_best_fit of each component's measurements with the stated n, m, component index; single curve: Arrhenius rescale "
              "followed through the aliased coefficient list), step-0 permeances, permeance of step k+1 = returned fit(state) x constant factor fixed at step 0 (factor 1 when "
              "none supplied), and the Arrhenius lemma f'(x,T) = f(x,Tc) exp(-Ea/R (1/T-1/Tc)) by exponent identity.",
-        note=TB + "hypothesis alpha>0 for fitted functions; find_best_fit / measurements / __call__ / activation energy by contract; repaired by fix commit 56213d2 (molar initial feed)",
+        note=TB + "frame lemma (no explored path writes to arguments, self, per-instance caches or module state) proved next to the statement, since it relates several calls; hypothesis alpha>0 for fitted functions; find_best_fit / measurements / __call__ / activation energy by contract; repaired by fix commit 56213d2 (molar initial feed)",
         technique="contracts + loop recurrence + heap aliasing followed by the executor; ring normal form with exp-product normalisation / z3"),
     'C19': dict(
         level='proof', ref='DESIGN.md 3/C19',
@@ -116,7 +118,7 @@ CLAIMED = {
              "same uninterpreted solver application cpf(T, x, precision, permeate condition, permeances, model, mixture) built from the *reported* state, with the selected model "
              "bound exactly as Python binds the call (this is what exposed the positional-argument slip); permeate composition = J1/(J1+J2), separation factors in one basis, "
              "curve/process metrics by definition element-wise; default-permeance lemma by lock-step over the solver loop.",
-        note=TB + "calculate_partial_fluxes by contract (pure function of its argument leaves); repaired by fix commits 218ae59, bbb5fa0",
+        note=TB + "frame lemma (no explored path writes to arguments, self, per-instance caches or module state) proved next to the statement, since it relates several calls; calculate_partial_fluxes by contract (pure function of its argument leaves); repaired by fix commits 218ae59, bbb5fa0",
         technique="contracts naming the callee result by an uninterpreted application + congruence; path enumeration; lock-step relational proof"),
     'C09': dict(
         level='proof', ref='DESIGN.md 3/C09',
@@ -124,7 +126,7 @@ CLAIMED = {
              "composition bases): permeances exposed in kg units, fluxes = permeance x feed pressure; both supplied: converted/kept; from fluxes produced by the solver's law "
              "at a self-consistent permeate (hypothesis solved for the second permeance): the reported permeances are the original ones in vacuum and temperature mode, and "
              "re-inversion in vacuum returns the permeances of a permeance-built curve. The permeate-pressure round trip is genuinely violated (known finding K2, semantic fingerprint).",
-        note=TB + "get_partial_pressures by contract; self-consistent permeate, non-negative permeances and non-zero driving forces are hypotheses of the statement",
+        note=TB + "frame lemma (no explored path writes to arguments, self, per-instance caches or module state) proved next to the statement, since it relates several calls; get_partial_pressures by contract; self-consistent permeate, non-negative permeances and non-zero driving forces are hypotheses of the statement",
         technique="contracts on the constructor hook; eager element-wise comprehension semantics; ring normal form / z3; fingerprinted known finding"),
     'C06': dict(
         level='proof', ref='DESIGN.md 3/C06',
@@ -132,7 +134,7 @@ CLAIMED = {
              "NRTL one/two alphas; UNIQUAC = known finding K1 with fingerprints); the flux solver by lock-step self-composition over its loop (invariant y_b = 1-y_a, d_b = d_a, "
              "partial-pressure swap lemma applied by rewriting) in 3 modes x given/default permeances; the step recurrences of both ideal process models (fluxes exchanged, mass, "
              "temperature and both heats equal, fractions mirrored) using the solver swap lemma; separation factor and ideal selectivity invert.",
-        note=TB + "callee swap lemmas are proved from the callee bodies in the same check and applied by rewriting once their argument relation is discharged; ideal curves are element-wise solver calls (C08)",
+        note=TB + "frame lemma (no explored path writes to arguments, self, per-instance caches or module state) proved next to the statement, since it relates several calls; callee swap lemmas are proved from the callee bodies in the same check and applied by rewriting once their argument relation is discharged; ideal curves are element-wise solver calls (C08)",
         technique="relational verification: lock-step self-composition + lemma rewriting over contracts; ring normal form / z3"),
     'C07': dict(
         level='proof', ref='DESIGN.md 3/C07',
@@ -140,15 +142,15 @@ CLAIMED = {
              "permeate-composition and separation-factor helpers, all four process models and the non-ideal curve (molar vs equivalent mass initial feed: identical prefix and "
              "identical step recurrence, hence identical trajectories; compositions reported as mass fractions), curve separation factor / PSI and the measurement points "
              "extracted for fitting (element-wise on curves of symbolic length, molar vs mass feed points).",
-        note=TB + "fitted coefficients compared through their inputs (identical find_best_fit application / identical measurement points); repaired by fix commits 56213d2, c90f218, bbb5fa0",
+        note=TB + "frame lemma (no explored path writes to arguments, self, per-instance caches or module state) proved next to the statement, since it relates several calls; fitted coefficients compared through their inputs (identical find_best_fit application / identical measurement points); repaired by fix commits 56213d2, c90f218, bbb5fa0",
         technique="relational verification over contracts (two runs with x_molar = to_molar(w)); lock-step; ring normal form / z3"),
     'C16': dict(
         level='proof', ref='DESIGN.md 3/C16',
         text="fit(): frame obligation on the real body (ownership analysis: copy.copy aliases fields; any write to the caller's Measurements or its list is reported) for zero/no-zero "
              "points, both component indices, auto/forced orders; result = from_array(minimize(objective on a private copy, zeros, 'Powell').x). find_best_fit and fit_vle: "
              "min-tracking loop invariant proved on the real loop body for a generic iteration (candidate = fit(data,n',m') / method result, loss = sum over the SUPPLIED data of "
-             "(f(x,t)-p)^2 element-wise, strict-< update) + initial state + exit, giving SSE(result) <= SSE(every tried candidate); PervaporationFunction against the closed form "
-             "and (f*c)=c f for every shape n,m <= 3 (quick) / 5 (thorough).",
+             "(f(x,t)-p)^2 element-wise, strict-< update) + initial state + exit, giving SSE(result) <= SSE(every tried candidate); PervaporationFunction.__call__ against the closed form for coefficient lists of arbitrary length (generic summands a[j] x^(j+1), b[j] x^j; builtin sum() by contract); "
+             "from_array + __call__ + (f*c)=c f additionally for every shape n,m <= 3 (quick) / 5 (thorough).",
         note=TB + "assumed contract of scipy.optimize.minimize (terminates, deterministic, does not modify inputs): determinism = proved frames + that assumption; "
                   "closed form unrolled per shape (bounded part, labelled); repaired by fix commit fc3a44d",
         technique="frame/ownership contracts + loop invariant on a generic iteration of the real loop body + per-shape symbolic execution; z3 / ring normal form"),
